@@ -20,11 +20,11 @@ pub fn info() -> PropInfo {
 pub fn strategy_for(tier: Tier) -> BoxedStrategy<Case> {
     let all = tier == Tier::Thorough;
     (
-        issue_spec_strategy(ClaimCfg::SHORT_F64, HONEST_PATHS, prop_oneof![Just(HolderKey::Ec), Just(HolderKey::Ed), Just(HolderKey::Ec2), Just(HolderKey::Ed2)].boxed()),
+        issue_spec_strategy(ClaimCfg::LIGHT, HONEST_PATHS, prop_oneof![Just(HolderKey::Ec), Just(HolderKey::Ed), Just(HolderKey::Ec2), Just(HolderKey::Ed2)].boxed()),
         choices_strategy(),
         aud_nonce_strategy(),
         aud_nonce_strategy(),
-        claims_strategy(ClaimCfg::SHORT_F64),
+        claims_strategy(ClaimCfg::LIGHT),
         choices_strategy(),
     )
         .prop_map(move |(issue, ch, aud, nonce, second_claims, choices)| {
@@ -35,5 +35,5 @@ pub fn strategy_for(tier: Tier) -> BoxedStrategy<Case> {
 }
 
 pub fn plan(tier: Tier) -> Plan<Case> {
-    Plan { strategy: strategy_for(tier), check, shrink_iters: 300, decode_bytes: None, cases: match tier { Tier::Quick => 3_000, Tier::Thorough => 8_000 } }
+    Plan { strategy: strategy_for(tier), check, shrink_iters: 300, decode_bytes: None, watchdog_secs: 600, cases: match tier { Tier::Quick => 3_000, Tier::Thorough => 8_000 } }
 }
